@@ -50,6 +50,16 @@ def scenario(world: WorldT) -> None:
     desc = GeckoSpaDescriptor(b"IOSverif-T", b"SPA01:02:03:04:05:06", "Udp Test Spa", (SPA_IP, SPA_PORT))
     facade = desc.get_facade(False)
     if not world.wait_until(lambda: facade.is_connected, 44):
+        # the scene cannot be set; if what the wire shows already explains it in this property's terms, that is the verdict: datagrams that one
+        # party queued were transmitted from the other party's endpoint (a client's command would leave from somebody else's socket and its
+        # echo would go there)
+        client_verbs = {"AVERS", "CURCH", "SFILE", "STATU", "APING", "SPACK", "GETWC", "REQRM"}
+        stray = [r for r in world.net.history if r.verb in client_verbs and r.src[0] == SPA_IP]
+        if stray:
+            world.violate("C13", "wrong-command", f"[blocking] the client cannot connect on a benign network: {len(stray)} of its own requests "
+                          f"({sorted({r.verb for r in stray})}) left from the spa's endpoint {stray[0].src} instead of its own: what one socket object "
+                          f"queues another one transmits, so a facade command is not sent by the client that issued it",
+                          sig="wrong-command:sent-from-another-socket")
         raise HarnessError("blocking facade did not connect on a benign network")
     spa = facade.spa
     # one full update cycle of the facade (watercare mode known)
